@@ -30,6 +30,8 @@ def mutate(rng, data):
         return bytes(d)
     for _ in range(rng.choice([1, 1, 2, 3, 6])):
         k = rng.random()
+        if not d:
+            break
         pos = rng.randrange(len(d))
         if k < 0.25:
             d[pos] = rng.randrange(256)
